@@ -2250,6 +2250,10 @@ GRcreate(int32 grid, const char *name, int32 ncomp, int32 nt, int32 il, int32 di
         dimsizes == NULL || dimsizes[0] <= 0 || dimsizes[1] <= 0)
         HGOTO_ERROR(DFE_ARGS, FAIL);
 
+    /* the image's name is stored as a vgroup name, whose length is a 16-bit unsigned value */
+    if (strlen(name) > UINT16_MAX)
+        HGOTO_ERROR(DFE_ARGS, FAIL);
+
     /* locate GR's object in hash table */
     if (NULL == (gr_ptr = (gr_info_t *)HAatom_object(grid)))
         HGOTO_ERROR(DFE_GRNOTFOUND, FAIL);
